@@ -24,6 +24,7 @@ type c05Case struct {
 	Where  *ref.Expr    `json:"where"`
 	Order  []string     `json:"order,omitempty"` // "name asc|desc"
 	Group  []string     `json:"group,omitempty"`
+	Limit  string       `json:"limit,omitempty"` // " limit s, n" appended to the statement
 	Store  []store.Pair `json:"store"`
 	Mode   string       `json:"mode"`
 	B      int          `json:"b"`
@@ -65,7 +66,7 @@ func (c *c05Case) query(expanded bool) string {
 	if len(c.Order) > 0 {
 		q += " order by " + strings.Join(c.Order, ", ")
 	}
-	return q
+	return q + c.Limit
 }
 
 func (c *c05Case) text() string {
@@ -345,20 +346,23 @@ func c05Clash(r *core.Reporter) {
 						mode string
 						b    int
 					}{{drv.Row, 32}, {drv.Batch, 1}, {drv.Batch, 2}, {drv.Batch, 3}, {drv.Batch, 32}} {
-						c := c05Case{Fields: fields, Where: w, Store: ps, Mode: cfg.mode, B: cfg.b}
-						if !r.Begin(func() *core.Failure {
-							return &core.Failure{Property: "C05", Leg: "alias", Case: c.text(), Data: core.MustJSON(c)}
-						}) {
-							continue
+						// a LIMIT window (with and without rows skipped, ending inside and beyond the rows) leaves every column the value of its field on its row's pair
+						for _, lim := range []string{"", " limit 1, 2", " limit 2, 100", " limit 0, 1"} {
+							c := c05Case{Fields: fields, Where: w, Limit: lim, Store: ps, Mode: cfg.mode, B: cfg.b}
+							if !r.Begin(func() *core.Failure {
+								return &core.Failure{Property: "C05", Leg: "alias", Case: c.text(), Data: core.MustJSON(c)}
+							}) {
+								continue
+							}
+							fs, nontrivial, status, obs, evals := c05Judge(&c)
+							r.Evals(evals)
+							for _, f := range fs {
+								status = "violation:" + f.Sig
+								r.Fail(f)
+							}
+							r.Case(c.text(), nontrivial, status)
+							r.Observed(obs)
 						}
-						fs, nontrivial, status, obs, evals := c05Judge(&c)
-						r.Evals(evals)
-						for _, f := range fs {
-							status = "violation:" + f.Sig
-							r.Fail(f)
-						}
-						r.Case(c.text(), nontrivial, status)
-						r.Observed(obs)
 					}
 				}
 			}
